@@ -380,4 +380,135 @@ theorem convert_ne_panic (gsi : Nat) (pl : Payload) : convert gsi pl ≠ .panic 
     · simp
     · split <;> simp
 
+/-! ## the parsers with the facts as data (`RalF`), instantiated with the compiled-in facts, ARE the parsers `Ral`
+
+(these hold as long as every `u256From<N>Byte!` width in `Whv.Gen.C15` equals the width of the slice it is applied to) -/
+
+theorem slice_length {p s : Bytes} {r : Nat × Nat} (h : Ral.slice p r = some s) : s.length = r.2 - r.1 := by
+  unfold Ral.slice at h
+  split at h
+  · rename_i hr
+    cases h
+    simp only [List.length_take, List.length_drop]
+    omega
+  · cases h
+
+theorem conv_of_slice {p s : Bytes} {r : Nat × Nat} (w : Nat) (h : Ral.slice p r = some s) (hw : r.2 - r.1 = w) :
+    RalF.conv w s = some (unbe s) := by
+  simp [RalF.conv, slice_length h, hw]
+
+theorem header_gen (module action : Nat) (p : Bytes) : RalF.header Facts.gen module action p = Ral.header module action p := by
+  unfold RalF.header Ral.header
+  cases h1 : Ral.slice p Facts.gen.moduleSlice with
+  | none => have h1' : Ral.slice p Gen.C15.moduleSlice = none := h1
+            simp only [h1']
+  | some m =>
+    have h1' : Ral.slice p Gen.C15.moduleSlice = some m := h1
+    cases h2 : Ral.slice p Facts.gen.actionSlice with
+    | none => have h2' : Ral.slice p Gen.C15.actionSlice = none := h2
+              simp only [h1', h2']
+    | some a =>
+      have h2' : Ral.slice p Gen.C15.actionSlice = some a := h2
+      simp only [h1', h2', conv_of_slice Facts.gen.moduleConv h1 rfl]
+      simp
+
+theorem parseMessageFee_gen (p : Bytes) : RalF.parseMessageFee Facts.gen p = Ral.parseMessageFee p := by
+  unfold RalF.parseMessageFee Ral.parseMessageFee
+  rw [header_gen]
+  cases h : Ral.slice p Facts.gen.feeValue with
+  | none => have h' : Ral.slice p Gen.C15.feeValue = none := h
+            simp only [h']; rfl
+  | some f =>
+    have h' : Ral.slice p Gen.C15.feeValue = some f := h
+    simp only [h', conv_of_slice Facts.gen.feeConv h rfl]; rfl
+
+theorem parseTransferFee_gen (p : Bytes) : RalF.parseTransferFee Facts.gen p = Ral.parseTransferFee p := by
+  unfold RalF.parseTransferFee Ral.parseTransferFee
+  rw [header_gen]
+  cases h : Ral.slice p Facts.gen.tfAmount with
+  | none => have h' : Ral.slice p Gen.C15.tfAmount = none := h
+            simp only [h']; rfl
+  | some a =>
+    have h' : Ral.slice p Gen.C15.tfAmount = some a := h
+    cases h2 : Ral.slice p Facts.gen.tfRecipient with
+    | none => have h2' : Ral.slice p Gen.C15.tfRecipient = none := h2
+              simp only [h', h2']; rfl
+    | some r =>
+      have h2' : Ral.slice p Gen.C15.tfRecipient = some r := h2
+      simp only [h', h2', conv_of_slice Facts.gen.tfAmountConv h rfl]; rfl
+
+theorem parseGuardianSet_gen (p : Bytes) : RalF.parseGuardianSet Facts.gen p = Ral.parseGuardianSet p := by
+  unfold RalF.parseGuardianSet Ral.parseGuardianSet
+  rw [header_gen]
+  cases h : Ral.slice p Facts.gen.gsIndex with
+  | none => have h' : Ral.slice p Gen.C15.gsIndex = none := h
+            simp only [h']; rfl
+  | some i =>
+    have h' : Ral.slice p Gen.C15.gsIndex = some i := h
+    cases h2 : Ral.slice p Facts.gen.gsCount with
+    | none => have h2' : Ral.slice p Gen.C15.gsCount = none := h2
+              simp only [h', h2']; rfl
+    | some c =>
+      have h2' : Ral.slice p Gen.C15.gsCount = some c := h2
+      simp only [h', h2', conv_of_slice Facts.gen.gsIndexConv h rfl, conv_of_slice Facts.gen.gsCountConv h2 rfl]; rfl
+
+theorem parseUpgrade_gen (module action : Nat) (p : Bytes) :
+    RalF.parseUpgrade Facts.gen module action p = Ral.parseUpgrade module action p := by
+  unfold RalF.parseUpgrade Ral.parseUpgrade
+  rw [header_gen]
+  cases h : Ral.slice p Facts.gen.cuCodeLen with
+  | none => rfl
+  | some l => simp only [conv_of_slice Facts.gen.cuCodeLenConv h rfl, Option.isSome_some, if_true]; rfl
+
+theorem parseRegisterChain_gen (module : Nat) (p : Bytes) :
+    RalF.parseRegisterChain Facts.gen module p = Ral.parseRegisterChain module p := by
+  unfold RalF.parseRegisterChain Ral.parseRegisterChain
+  rw [header_gen]
+  cases h : Ral.slice p Facts.gen.rcChain with
+  | none => have h' : Ral.slice p Gen.C15.rcChain = none := h
+            simp only [h']; rfl
+  | some a =>
+    have h' : Ral.slice p Gen.C15.rcChain = some a := h
+    cases h2 : Ral.slice p Facts.gen.rcBridge with
+    | none => have h2' : Ral.slice p Gen.C15.rcBridge = none := h2
+              simp only [h', h2']; rfl
+    | some r =>
+      have h2' : Ral.slice p Gen.C15.rcBridge = some r := h2
+      simp only [h', h2', conv_of_slice Facts.gen.rcChainConv h rfl]; rfl
+
+theorem parseDestroy_gen (p : Bytes) : RalF.parseDestroy Facts.gen p = Ral.parseDestroy p := by
+  unfold RalF.parseDestroy Ral.parseDestroy
+  rw [header_gen]
+  cases h : Ral.slice p Facts.gen.dsChain with
+  | none => have h' : Ral.slice p Gen.C15.dsChain = none := h
+            simp only [h']; rfl
+  | some a =>
+    have h' : Ral.slice p Gen.C15.dsChain = some a := h
+    cases h2 : Ral.slice p Facts.gen.dsCount with
+    | none => have h2' : Ral.slice p Gen.C15.dsCount = none := h2
+              simp only [h', h2']; rfl
+    | some r =>
+      have h2' : Ral.slice p Gen.C15.dsCount = some r := h2
+      simp only [h', h2', conv_of_slice Facts.gen.dsCountConv h2 rfl]; rfl
+
+theorem parseMinConsistency_gen (p : Bytes) : RalF.parseMinConsistency Facts.gen p = Ral.parseMinConsistency p := by
+  unfold RalF.parseMinConsistency Ral.parseMinConsistency
+  rw [header_gen]
+  cases h : Ral.slice p Facts.gen.clValue with
+  | none => have h' : Ral.slice p Gen.C15.clValue = none := h
+            simp only [h']; rfl
+  | some c =>
+    have h' : Ral.slice p Gen.C15.clValue = some c := h
+    simp only [h', conv_of_slice Facts.gen.clConv h rfl]; rfl
+
+theorem parseRefundAddress_gen (p : Bytes) : RalF.parseRefundAddress Facts.gen p = Ral.parseRefundAddress p := by
+  unfold RalF.parseRefundAddress Ral.parseRefundAddress
+  rw [header_gen]
+  cases h : Ral.slice p Facts.gen.raLen with
+  | none => have h' : Ral.slice p Gen.C15.raLen = none := h
+            simp only [h']; rfl
+  | some l =>
+    have h' : Ral.slice p Gen.C15.raLen = some l := h
+    simp only [h', conv_of_slice Facts.gen.raLenConv h rfl]; rfl
+
 end Whv.Gov
